@@ -19,7 +19,7 @@ REQUIRED = {"leray": {"quick": 60, "thorough": 300}, "make_incompressible": {"qu
             "rollout_divfree": {"quick": 150, "thorough": 2000}}
 REQUIRED_TAPS = {"ns3_step:traced": 150}
 ASSUMPTIONS = ["Nyquist-free fields for the physical-space routines (the property's precondition)", "float64"]
-TIMEOUT = {"quick": 900, "thorough": 3000}
+TIMEOUT = {"quick": 2400, "thorough": 7200}
 EPS = np.finfo(float).eps
 
 
